@@ -11,7 +11,7 @@
 use calamine::{Data, Ods, Reader};
 use std::collections::{BTreeMap, HashMap};
 use std::io::Cursor;
-use verif_harness::odsw::{OdsBook, OdsCell, OdsSheet, OdsVal, RowRun};
+use verif_harness::odsw::{columns_xml, shapes_xml, OdsBook, OdsCell, OdsSheet, OdsVal, RowRun, RowWrap};
 use verif_harness::{driver::Driver, fnv64, guarded, hex, report::Report, rng::Rng, unhex, Args};
 
 const BIG: usize = 4096;
@@ -339,6 +339,15 @@ fn cell_text(c: &OdsCell) -> String {
     if let Some(f) = &c.formula {
         s.push_str(&format!("={}", hex(f.as_bytes())));
     }
+    if let Some((r, k)) = c.span {
+        s.push_str(&format!("^{r}x{k}"));
+    }
+    if c.annotation.is_some() {
+        s.push('#');
+    }
+    if !c.extra_attrs.is_empty() {
+        s.push('+');
+    }
     if c.display.is_some() {
         s.push('~');
     }
@@ -348,20 +357,90 @@ fn cell_text(c: &OdsCell) -> String {
     s
 }
 
-fn sheet_text(rows: &[RowRun]) -> String {
-    if rows.is_empty() {
-        return "-".into();
+/// decorations of the table element that hold no rows: column declarations (shape 0..5 of `odsw::columns_xml`,
+/// 9 = none) for `ncols` columns, and a bit set: 1 `table:table-source`, 2 `office:forms`, 4 `table:shapes` (with a
+/// text box), 8 sheet-local `table:named-expressions` after the rows, 16 `calcext:conditional-formats` after the
+/// rows, 32 `table:protected` / `table:print` attributes on the table, 64 decoy sheets before and after
+#[derive(Clone, Copy, Debug, PartialEq)]
+struct Deco {
+    col_shape: usize,
+    ncols: usize,
+    bits: u32,
+}
+
+const NO_DECO: Deco = Deco { col_shape: 9, ncols: 1, bits: 0 };
+
+const CELL_EXTRA: &str = " table:style-name=\"ce1\" calcext:value-type=\"void\" table:content-validation-name=\"val1\"";
+const ROW_EXTRA: &str = " table:style-name=\"ro1\"";
+
+fn decorate(sheet: &mut OdsSheet, d: Deco) {
+    let mut pre = String::new();
+    if d.bits & 1 != 0 {
+        pre.push_str("<table:table-source table:mode=\"copy-all\" xlink:href=\"other.ods\" table:table-name=\"T\"/>");
     }
-    rows.iter()
-        .map(|r| {
-            format!(
-                "{}:{}",
-                r.repeat.map(|k| k.to_string()).unwrap_or_default(),
-                r.cells.iter().map(cell_text).collect::<Vec<_>>().join(";")
-            )
-        })
-        .collect::<Vec<_>>()
-        .join("/")
+    if d.bits & 2 != 0 {
+        pre.push_str("<office:forms form:automatic-focus=\"false\" form:apply-design-mode=\"false\"/>");
+    }
+    if d.bits & 4 != 0 {
+        pre.push_str(&shapes_xml("text in a shape"));
+    }
+    if d.col_shape != 9 {
+        pre.push_str(&columns_xml(d.col_shape, d.ncols));
+    }
+    sheet.prelude = pre;
+    let mut post = String::new();
+    if d.bits & 8 != 0 {
+        post.push_str("<table:named-expressions><table:named-range table:name=\"local\" table:base-cell-address=\"$Sheet1.$A$1\" table:cell-range-address=\"$Sheet1.$A$1:.$B$2\"/></table:named-expressions>");
+    }
+    if d.bits & 16 != 0 {
+        post.push_str("<calcext:conditional-formats><calcext:conditional-format calcext:target-range-address=\"Sheet1.A1:Sheet1.B2\"><calcext:condition calcext:apply-style-name=\"Good\" calcext:value=\"&gt;1\" calcext:base-cell-address=\"Sheet1.A1\"/></calcext:conditional-format></calcext:conditional-formats>");
+    }
+    sheet.postlude = post;
+    if d.bits & 32 != 0 {
+        sheet.extra_attrs = " table:protected=\"true\" table:print=\"false\"".into();
+    }
+}
+
+fn row_text(r: &RowRun) -> String {
+    let mut t = String::new();
+    for w in &r.open {
+        t.push(match w {
+            RowWrap::Group => 'G',
+            RowWrap::HeaderRows => 'H',
+            RowWrap::Rows => 'R',
+        });
+    }
+    match r.visibility.as_deref() {
+        Some("collapse") => t.push('V'),
+        Some(_) => t.push('F'),
+        None => {}
+    }
+    if r.soft_break_before {
+        t.push('K');
+    }
+    if !r.extra_attrs.is_empty() {
+        t.push('Y');
+    }
+    t.push_str(&format!(
+        "{}:{}",
+        r.repeat.map(|k| k.to_string()).unwrap_or_default(),
+        r.cells.iter().map(cell_text).collect::<Vec<_>>().join(";")
+    ));
+    for _ in 0..r.close {
+        t.push(')');
+    }
+    t
+}
+
+/// rows: `<opens><flags><rep>:<cells><closes>` — opens `G` (table-row-group) `H` (table-header-rows) `R` (table-rows)
+/// before the row, flags `V`/`F` (table:visibility collapse/filter) `K` (soft page break before) `Y` (row style),
+/// one `)` per container closed after the row. Optional sheet prefix `P<col shape>.<ncols>.<bits>@` (see `Deco`).
+fn sheet_text(rows: &[RowRun], d: Deco) -> String {
+    let pre = if d == NO_DECO { String::new() } else { format!("P{}.{}.{}@", d.col_shape, d.ncols, d.bits) };
+    if rows.is_empty() {
+        return format!("{pre}-");
+    }
+    format!("{pre}{}", rows.iter().map(row_text).collect::<Vec<_>>().join("/"))
 }
 
 fn parse_cell(s: &str) -> OdsCell {
@@ -369,9 +448,27 @@ fn parse_cell(s: &str) -> OdsCell {
         Some((b, k)) => (b, Some(k.parse::<usize>().unwrap())),
         None => (s, None),
     };
-    let (body, disp) = match body.strip_suffix('~') {
-        Some(b) => (b, true),
-        None => (body, false),
+    let (mut body, mut disp, mut ann, mut extra) = (body, false, false, false);
+    loop {
+        if let Some(b) = body.strip_suffix('~') {
+            body = b;
+            disp = true;
+        } else if let Some(b) = body.strip_suffix('#') {
+            body = b;
+            ann = true;
+        } else if let Some(b) = body.strip_suffix('+') {
+            body = b;
+            extra = true;
+        } else {
+            break;
+        }
+    }
+    let (body, span) = match body.split_once('^') {
+        Some((b, sp)) => {
+            let (r, k) = sp.split_once('x').expect("span");
+            (b, Some((r.parse::<usize>().unwrap(), k.parse::<usize>().unwrap())))
+        }
+        None => (body, None),
     };
     let (body, formula) = match body.split_once('=') {
         Some((b, f)) => (b, Some(String::from_utf8(unhex(f)).unwrap())),
@@ -395,25 +492,112 @@ fn parse_cell(s: &str) -> OdsCell {
     };
     c.repeat = rep;
     c.formula = formula;
+    c.span = span;
     if disp {
         c.display = Some("shown".into());
+    }
+    if ann {
+        c.annotation = Some("a note\nsecond line".into());
+    }
+    if extra {
+        c.extra_attrs = CELL_EXTRA.into();
     }
     c
 }
 
-fn parse_sheet(s: &str) -> Vec<RowRun> {
+fn parse_sheet(s: &str) -> (Vec<RowRun>, Deco) {
+    let (deco, s) = match s.strip_prefix('P').and_then(|r| r.split_once('@')) {
+        Some((d, rest)) => {
+            let p: Vec<&str> = d.split('.').collect();
+            (Deco { col_shape: p[0].parse().unwrap(), ncols: p[1].parse().unwrap(), bits: p[2].parse().unwrap() }, rest)
+        }
+        None => (NO_DECO, s),
+    };
     if s == "-" {
-        return vec![];
+        return (vec![], deco);
     }
-    s.split('/')
+    let rows = s
+        .split('/')
         .map(|r| {
-            let (rep, cells) = r.split_once(':').expect("row");
-            RowRun {
-                repeat: if rep.is_empty() { None } else { Some(rep.parse().unwrap()) },
-                cells: if cells.is_empty() { vec![] } else { cells.split(';').map(parse_cell).collect() },
+            let close = r.len() - r.trim_end_matches(')').len();
+            let r = r.trim_end_matches(')');
+            let (head, cells) = r.split_once(':').expect("row");
+            let rep: String = head.chars().filter(|c| c.is_ascii_digit()).collect();
+            let mut row = RowRun::new(if cells.is_empty() { vec![] } else { cells.split(';').map(parse_cell).collect() });
+            row.repeat = if rep.is_empty() { None } else { Some(rep.parse().unwrap()) };
+            row.close = close;
+            for ch in head.chars() {
+                match ch {
+                    'G' => row.open.push(RowWrap::Group),
+                    'H' => row.open.push(RowWrap::HeaderRows),
+                    'R' => row.open.push(RowWrap::Rows),
+                    'V' => row.visibility = Some("collapse".into()),
+                    'F' => row.visibility = Some("filter".into()),
+                    'K' => row.soft_break_before = true,
+                    'Y' => row.extra_attrs = ROW_EXTRA.into(),
+                    _ => {}
+                }
             }
+            row
         })
-        .collect()
+        .collect();
+    (rows, deco)
+}
+
+/// Legal ODF decorations that must not change any range: row containers (nested outline groups, header rows,
+/// table-rows), row visibility / style / soft page breaks, cell spans, annotations, foreign attributes.
+fn wrap_rows(rows: &mut [RowRun], rng: &mut Rng) -> Deco {
+    if rng.chance(1, 3) {
+        return NO_DECO; // plain encoding
+    }
+    // (kind of each open container); header-rows and table-rows hold rows only, groups nest
+    let mut open: Vec<RowWrap> = vec![];
+    let n = rows.len();
+    for (i, row) in rows.iter_mut().enumerate() {
+        let leaf = matches!(open.last(), Some(RowWrap::HeaderRows | RowWrap::Rows));
+        if !leaf {
+            while open.len() < 3 && rng.chance(1, 4) {
+                row.open.push(RowWrap::Group);
+                open.push(RowWrap::Group);
+            }
+            if rng.chance(1, 5) {
+                let w = if rng.chance(1, 2) { RowWrap::HeaderRows } else { RowWrap::Rows };
+                row.open.push(w);
+                open.push(w);
+            }
+        }
+        // close some of what is open after this row (sometimes left to the end of the table)
+        while !open.is_empty() && (rng.chance(1, 3) || (i + 1 == n && rng.chance(1, 2))) {
+            open.pop();
+            row.close += 1;
+        }
+        if rng.chance(1, 8) {
+            row.visibility = Some(if rng.chance(1, 2) { "collapse" } else { "filter" }.to_string());
+        }
+        if rng.chance(1, 10) {
+            row.soft_break_before = true;
+        }
+        if rng.chance(1, 6) {
+            row.extra_attrs = ROW_EXTRA.into();
+        }
+        for cell in row.cells.iter_mut() {
+            if !cell.is_blank() && !cell.covered && rng.chance(1, 8) {
+                cell.span = Some((rng.range(1, 3) as usize, rng.range(1, 3) as usize));
+            }
+            if rng.chance(1, 8) {
+                cell.annotation = Some("a note\nsecond line".into());
+                cell.self_closing = false;
+            }
+            if rng.chance(1, 6) {
+                cell.extra_attrs = CELL_EXTRA.into();
+            }
+        }
+    }
+    Deco {
+        col_shape: if rng.chance(1, 3) { 9 } else { rng.below(6) as usize },
+        ncols: *rng.pick(&[1usize, 2, 3, 7, 1024, 16384]),
+        bits: if rng.chance(1, 2) { rng.below(128) as u32 } else { 0 },
+    }
 }
 
 /// what a grid position stores: a value (possibly `Empty`) and a formula (possibly none); never both absent
@@ -661,8 +845,9 @@ fn oracle_dump(cells: &[((u64, u64), u64)]) -> String {
     dump((r0, c0), (r1, c1), &out)
 }
 
-fn run_file(rows: &[RowRun], drv: &mut Driver, stored: bool) -> FileOut {
-    let sheet = OdsSheet::new("Sheet1", rows.to_vec());
+fn run_file(rows: &[RowRun], deco: Deco, drv: &mut Driver, stored: bool) -> FileOut {
+    let mut sheet = OdsSheet::new("Sheet1", rows.to_vec());
+    decorate(&mut sheet, deco);
     let grid = sheet.grid();
     // id tables: 0 = empty, ids by first appearance in the runs
     let mut ids: HashMap<String, u64> = HashMap::new();
@@ -706,6 +891,20 @@ fn run_file(rows: &[RowRun], drv: &mut Driver, stored: bool) -> FileOut {
     let expect = [oracle_dump(&ev), oracle_dump(&ef)];
     // implementation
     let mut book = OdsBook::new(vec![sheet]);
+    if deco.bits & 64 != 0 {
+        // decoy sheets around the one under test: their rows must not leak into it
+        let decoy = |name: &str| {
+            OdsSheet::new(
+                name,
+                vec![
+                    RowRun::new(vec![OdsCell::empty_run(40), OdsCell::string("decoy")]).times(3),
+                    RowRun::new(vec![OdsCell::float(9.0).times(2)]).times(2000),
+                ],
+            )
+        };
+        book.sheets.insert(0, decoy("A decoy"));
+        book.sheets.push(decoy("Zz decoy"));
+    }
     book.stored = stored;
     let bytes = book.to_bytes();
     let mut typed = None;
@@ -782,9 +981,41 @@ fn show_out(o: &[String; 2]) -> String {
 }
 
 /// shrink an encoded sheet: drop rows, drop cells, reduce repeats
-fn shrink_file(rows: &[RowRun], kind: &str, drv: &mut Driver) -> Vec<RowRun> {
-    let fails = |rows: &Vec<RowRun>, drv: &mut Driver| judge_file(&run_file(rows, drv, false)).map(|x| x.0 == kind).unwrap_or(false);
+/// make the container structure consistent again after rows were removed: never close more than is open
+fn rebalance(rows: &mut [RowRun]) {
+    let mut depth = 0usize;
+    for r in rows.iter_mut() {
+        depth += r.open.len();
+        r.close = r.close.min(depth);
+        depth -= r.close;
+    }
+}
+
+fn shrink_file(rows: &[RowRun], deco: Deco, kind: &str, drv: &mut Driver) -> (Vec<RowRun>, Deco) {
+    let mut deco = deco;
+    if deco != NO_DECO && judge_file(&run_file(rows, NO_DECO, drv, false)).map(|x| x.0 == kind).unwrap_or(false) {
+        deco = NO_DECO;
+    }
+    let fails = |rows: &Vec<RowRun>, drv: &mut Driver| {
+        let mut r = rows.clone();
+        rebalance(&mut r);
+        judge_file(&run_file(&r, deco, drv, false)).map(|x| x.0 == kind).unwrap_or(false)
+    };
     let mut cur = rows.to_vec();
+    // first try without any row container / row decoration, then with one fewer at a time
+    {
+        let mut c = cur.clone();
+        for r in c.iter_mut() {
+            r.open.clear();
+            r.close = 0;
+            r.visibility = None;
+            r.soft_break_before = false;
+            r.extra_attrs.clear();
+        }
+        if fails(&c, drv) {
+            cur = c;
+        }
+    }
     loop {
         let mut improved = false;
         let mut i = 0;
@@ -805,6 +1036,21 @@ fn shrink_file(rows: &[RowRun], kind: &str, drv: &mut Driver) -> Vec<RowRun> {
                     continue;
                 }
             }
+            if !cur[i].open.is_empty() || cur[i].visibility.is_some() || cur[i].soft_break_before || !cur[i].extra_attrs.is_empty() {
+                let mut c = cur.clone();
+                if !c[i].open.is_empty() {
+                    c[i].open.pop();
+                } else {
+                    c[i].visibility = None;
+                    c[i].soft_break_before = false;
+                    c[i].extra_attrs.clear();
+                }
+                if fails(&c, drv) {
+                    cur = c;
+                    improved = true;
+                    continue;
+                }
+            }
             let mut j = 0;
             while j < cur[i].cells.len() {
                 let mut c = cur.clone();
@@ -815,12 +1061,15 @@ fn shrink_file(rows: &[RowRun], kind: &str, drv: &mut Driver) -> Vec<RowRun> {
                     continue;
                 }
                 let cell = &cur[i].cells[j];
-                if cell.repeat.is_some() || cell.display.is_some() || cell.covered || !cell.self_closing {
+                if cell.repeat.is_some() || cell.display.is_some() || cell.covered || !cell.self_closing || cell.span.is_some() || cell.annotation.is_some() || !cell.extra_attrs.is_empty() {
                     let mut c = cur.clone();
                     c[i].cells[j].repeat = None;
                     c[i].cells[j].display = None;
                     c[i].cells[j].covered = false;
                     c[i].cells[j].self_closing = true;
+                    c[i].cells[j].span = None;
+                    c[i].cells[j].annotation = None;
+                    c[i].cells[j].extra_attrs.clear();
                     if fails(&c, drv) {
                         cur = c;
                         improved = true;
@@ -850,7 +1099,8 @@ fn shrink_file(rows: &[RowRun], kind: &str, drv: &mut Driver) -> Vec<RowRun> {
             i += 1;
         }
         if !improved {
-            return cur;
+            rebalance(&mut cur);
+            return (cur, deco);
         }
     }
 }
@@ -898,6 +1148,12 @@ fn file_corpus() -> Vec<&'static str> {
         // no rows at all; only blanks
         "-",
         "5:_*7/:c",
+        // seeded C04-m1: rows inside (nested) table:table-row-group / table-header-rows / table-rows keep their
+        // positions; column declarations with group/header wrappers, shapes, forms, table-source before the rows
+        "P5.7.127@H:s61)/G:f3ff0000000000000/GR2:_;f4000000000000000)/:_*3;b1))/:s62",
+        "P4.16384.4@GGG:_;f3ff0000000000000/:/:_;f4008000000000000",
+        // spans, annotations (on a value, a string, a blank), foreign attributes, hidden rows, soft page breaks
+        "VKY:f3ff0000000000000^2x2#+~;c;s61#;_#*2;b1+/F:c;c;s782079#+",
     ]
 }
 
@@ -1179,7 +1435,7 @@ fn run_cell(c: &CellCase, drv: &mut Driver) -> Option<(String, String, String, S
 
 enum Work {
     Unit(Flat),
-    File(Vec<RowRun>, Option<TGrid>, bool),
+    File(Vec<RowRun>, Deco, Option<TGrid>, bool),
     Cell(CellCase),
 }
 
@@ -1212,6 +1468,29 @@ fn file_counters(rows: &[RowRun], grid: &verif_harness::odsw::Grid, c: &mut Vec<
     }
     if rows.iter().any(|r| r.cells.iter().any(|c| c.formula.is_some() && c.val.is_empty())) {
         c.push(("file.formula_without_value", 1));
+    }
+    if rows.iter().any(|r| r.open.contains(&RowWrap::Group)) {
+        c.push(("file.row_group", 1));
+    }
+    if rows.iter().any(|r| r.open.iter().filter(|w| **w == RowWrap::Group).count() > 1)
+        || rows.iter().scan(0i64, |d, r| { *d += r.open.len() as i64; let cur = *d; *d -= r.close as i64; Some(cur) }).any(|d| d >= 3)
+    {
+        c.push(("file.nested_row_containers", 1));
+    }
+    if rows.iter().any(|r| r.open.contains(&RowWrap::HeaderRows)) {
+        c.push(("file.header_rows", 1));
+    }
+    if rows.iter().any(|r| r.open.contains(&RowWrap::Rows)) {
+        c.push(("file.table_rows", 1));
+    }
+    if rows.iter().any(|r| r.visibility.is_some()) {
+        c.push(("file.row_visibility", 1));
+    }
+    if rows.iter().any(|r| r.cells.iter().any(|c| c.span.is_some())) {
+        c.push(("file.spanned_cell", 1));
+    }
+    if rows.iter().any(|r| r.cells.iter().any(|c| c.annotation.is_some())) {
+        c.push(("file.annotation", 1));
     }
     let used_rows: Vec<u64> = grid.iter().filter(|(_, v)| v.0 != Data::Empty).map(|(k, _)| k.0).collect();
     if let (Some(a), Some(b)) = (used_rows.first(), used_rows.last()) {
@@ -1258,8 +1537,9 @@ fn process(w: &Work, drv: &mut Driver, shrink_budget: &mut u32) -> Done {
             let fail = run_cell(c, drv).map(|(k, sig, i, m, e)| (k, sig, text.clone(), i, m, e));
             Done { text, nontrivial: wf, counters, fail }
         }
-        Work::File(rows, src, stored) => {
-            let text = format!("F {}", sheet_text(rows));
+        Work::File(rows, deco, src, stored) => {
+            let deco = *deco;
+            let text = format!("F {}", sheet_text(rows, deco));
             let sheet = OdsSheet::new("Sheet1", rows.clone());
             let grid = sheet.grid();
             let nontrivial = grid.values().any(|v| v.0 != Data::Empty);
@@ -1283,16 +1563,16 @@ fn process(w: &Work, drv: &mut Driver, shrink_budget: &mut u32) -> Done {
             }
             let mut counters = vec![];
             file_counters(rows, &grid, &mut counters);
-            let o = run_file(rows, drv, *stored);
+            let o = run_file(rows, deco, drv, *stored);
             let mut fail = None;
             if let Some((kind, sig)) = judge_file(&o) {
                 fail = Some((kind.clone(), sig, text.clone(), format!("{} {}", show_out(&o.imp), o.typed.clone().unwrap_or_default()), show_out(&o.model), show_out(&o.expect)));
                 if *shrink_budget > 0 {
                     *shrink_budget -= 1;
-                    let small = shrink_file(rows, &kind, drv);
-                    let o2 = run_file(&small, drv, false);
+                    let (small, sdeco) = shrink_file(rows, deco, &kind, drv);
+                    let o2 = run_file(&small, sdeco, drv, false);
                     if let Some((k2, s2)) = judge_file(&o2) {
-                        fail = Some((k2, s2, format!("F {}", sheet_text(&small)), format!("{} {}", show_out(&o2.imp), o2.typed.clone().unwrap_or_default()), show_out(&o2.model), show_out(&o2.expect)));
+                        fail = Some((k2, s2, format!("F {}", sheet_text(&small, sdeco)), format!("{} {}", show_out(&o2.imp), o2.typed.clone().unwrap_or_default()), show_out(&o2.model), show_out(&o2.expect)));
                     }
                 }
             } else if o.imp != o.model {
@@ -1329,7 +1609,11 @@ fn main() {
          spanning a box <= 2^21 cells; float/percentage/currency/string/string-value/boolean/date/time cells, 25 % of them with a \
          formula, some formulas without a value) each written as 4 ods files under independent random run-length groupings (explicit \
          copies vs repeated cells/rows in any split, blank runs as cells, covered cells or cell-less rows, trailing blank runs up to \
-         column 16384 / row 1048576), read with Ods::worksheet_range and worksheet_formula and compared with the bounding-box oracle \
+         column 16384 / row 1048576; two thirds of the encodings additionally decorated with legal ODF that holds no cells: rows inside \
+         nested table:table-row-group / table:table-header-rows / table:table-rows, row visibility / style / soft page breaks, cell \
+         spans, office:annotation children, foreign attributes, column declarations in every wrapper shape, table:table-source, \
+         office:forms, table:shapes with a text box, sheet-local named expressions and calcext:conditional-formats after the rows, \
+         decoy sheets before and after), read with Ods::worksheet_range and worksheet_formula and compared with the bounding-box oracle \
          of the grid, the Lean model getRange(collectV/collectF runs) and the Lean spec bbox/expand. cell: one table-cell element whose \
          attributes (value-type, 0..2 value attributes, formula, foreign attributes incl. calcext:value-type) stand in random order, \
          70 % well-formed (one value-type with its matching value attribute or text content), read through the public API vs the \
@@ -1345,7 +1629,8 @@ fn main() {
         } else if kind == "C" {
             Work::Cell(CellCase::parse(body))
         } else {
-            Work::File(parse_sheet(body), None, false)
+            let (rows, deco) = parse_sheet(body);
+            Work::File(rows, deco, None, false)
         };
         let mut budget = 0;
         let d = process(&w, &mut drv, &mut budget);
@@ -1389,7 +1674,8 @@ fn main() {
                             tx.send(process(&w, &mut drv, &mut budget)).unwrap();
                         }
                         for c in file_corpus() {
-                            let w = Work::File(parse_sheet(c), None, false);
+                            let (rows, deco) = parse_sheet(c);
+                            let w = Work::File(rows, deco, None, false);
                             tx.send(process(&w, &mut drv, &mut budget)).unwrap();
                         }
                         for c in cell_corpus() {
@@ -1411,9 +1697,10 @@ fn main() {
                     for _ in 0..share(n_grid) {
                         let g = gen_grid(&mut frng);
                         for _ in 0..4 {
-                            let rows = encode(&g, &mut frng);
+                            let mut rows = encode(&g, &mut frng);
+                            let deco = wrap_rows(&mut rows, &mut frng);
                             let stored = frng.chance(1, 4);
-                            let w = Work::File(rows, Some(g.clone()), stored);
+                            let w = Work::File(rows, deco, Some(g.clone()), stored);
                             tx.send(process(&w, &mut drv, &mut budget)).unwrap();
                         }
                     }
